@@ -252,9 +252,9 @@ func c14CallInLoop(r *rand.Rand) Case {
 	body := &pAct{Name: "body", Ops: []pOp{call}}
 	if r.Intn(2) == 0 { // the data changes between two calls of one body run as well
 		body = &pAct{Name: "body", Children: []*pAct{
-			{Name: "c1", Order: 1, Ops: []pOp{call}},
-			{Name: "c2", Order: 2, Ops: []pOp{{Kind: "set", Data: map[string]any{"it": "changed"}}}},
-			{Name: "c3", Order: 3, Ops: []pOp{call}},
+			{Name: "c1", Order: 5, Ops: []pOp{call}}, // (order values of different widths: compared as numbers)
+			{Name: "c2", Order: 10, Ops: []pOp{{Kind: "set", Data: map[string]any{"it": "changed"}}}},
+			{Name: "c3", Order: 100, Ops: []pOp{call}},
 		}}
 	}
 	root := &pAct{Name: "r", Children: []*pAct{
@@ -597,7 +597,9 @@ func init() {
 				case 1:
 					return c14Nested(r)
 				}
-				switch r.Intn(5) {
+				switch r.Intn(6) {
+				case 5:
+					return c14QueryRecords(r)
 				case 0:
 					return c14CallNested(r)
 				case 1:
